@@ -14,7 +14,10 @@ def special_grammars(ctx):
 
     def add(gid, text, text_noast=None):
         gs.append(dict(id=gid, text=text, text_noast=text_noast or text))
-    n = 300 if ctx.tier == "quick" else 3000
+    # the Go compiler's time on the one Init function grows quadratically with the rule count once the parser is
+    # instantiated (300 rules: 40 s, 1000: 400 s, 3000: about an hour per option set); the full compile stops at
+    # 1000 rules and the larger sizes are parsed, type-checked and gofmt-checked without instantiation (typecheck_only)
+    n = 300 if ctx.tier == "quick" else 1000
     add("many%d" % n, HDR + "S <- R0 !.\n" + "".join("R%d <- 'a' R%d? { p.N++ }\n" % (i, i + 1) for i in range(n)) + "R%d <- <'b'> { p.N++ }\n" % n)
     add("mix200", HDR + "S <- R0 !.\n" + "".join("R%d <- 'a' R%d? %s\n" % (i, i + 1, "{ p.N++ }" if i % 5 < 3 else "") for i in range(200)) + "R200 <- <'b'> Undef1? Undef2?\n")
     add("imports", "package parser\n\nimport \"fmt\"\nimport z \"os\"\nimport (\n\tb \"bytes\"\n\t\"strings\"\n\t\"math\"\n)\nimport \"io\"\n\ntype Parser Peg {\n T []string\n N int\n}\n"
@@ -159,6 +162,8 @@ def check(ctx):
                     problems.append(("[%s] %s" % (g["id"], why), {"grammar": g["text"][:4000], "stream": g["id"], "options": B.OPTSETS[o], "why": why}))
     finally:
         bt.cleanup()
+    tc_files = typecheck_only(ctx, bd, allopts, problems)
+    files += tc_files
     rep, seen = 0, set()
     problems.sort(key=lambda x: 1 if x[1].get("broken") else 0)       # failing inputs first, broken correspondence after
     for why, replay in problems:
@@ -178,11 +183,56 @@ def check(ctx):
         ctx.violation("proof obligation for C08 no longer checks: " + broken[0][:200], {"broken": broken}, found=False)
     ctx.coverage.update({
         "evaluations": files, "distinct_nontrivial": len(data["grammars"]) + len(gs),
-        "rule": "every file generated for the shared batch (random/backtracking/switch-shaped/inline-shaped grammars x 8 option sets) plus dedicated streams (%s) x 8 option sets: go build (parse + type check + compile), gofmt -l; a file counts as non-trivial per distinct grammar" % ", ".join(g["id"] for g in gs),
+        "rule": "every file generated for the shared batch (random/backtracking/switch-shaped/inline-shaped grammars x 8 option sets) plus dedicated streams (%s) x 8 option sets: go build (parse + type check + compile), gofmt -l; a file counts as non-trivial per distinct grammar; plus %d files of 3000 (thorough: and 66000) rules parsed, type-checked and gofmt-checked without instantiating the parser" % (", ".join(g["id"] for g in gs), tc_files),
         "problems": len(problems),
         "skeletons_compared": skel_cmp,
         "samples": [{"stream": g["id"], "grammar": g["text"][:160]} for g in gs[1:4]],
     })
+
+
+def typecheck_only(ctx, bd, allopts, problems):
+    """Thousands of rules: generate, then `go build` the parser package alone (the generic parser is parsed and
+    type-checked in full, not instantiated) and gofmt -l.  The thorough tier also crosses the uint16 rule type."""
+    flat = lambda n: dict(id="tc-flat%d" % n, text=HDR + "S <- " + " ".join("R%d" % i for i in range(n)) + " !.\n" + "".join("R%d <- [a-c] { p.N++ } / 'd' 'e'? / <'f'*> 'g'\n" % i for i in range(n)))
+    chain = lambda n: dict(id="tc-chain%d" % n, text=HDR + "S <- R0 !.\n" + "".join("R%d <- 'a' R%d? { p.N++ }\n" % (i, i + 1) for i in range(n)) + "R%d <- <'b'> { p.N++ }\n" % n)
+    runs = [([chain(3000), flat(3000)], allopts if ctx.tier != "quick" else ["d", "nis"])]
+    if ctx.tier != "quick":
+        # more rules than a uint16 holds; without -switch (the first-set fixpoint over 66000 rules takes the
+        # generator longer than the harness waits) and not as one chain under -inline (the nesting would exceed
+        # what go/parser accepts at all, 100000 levels: a limit of Go, not of the generator)
+        runs.append(([flat(66000)], ["d", "ni"]))
+    n = 0
+    for k, (gs, opts) in enumerate(runs):
+        for g in gs:
+            g["text_noast"] = g["text"]
+        bt = B.Batch(bd, "c08tc%d" % k, gs, opts, strict=False)
+        try:
+            bt.generate()
+            with open(os.path.join(bt.dir, "go.mod"), "w") as f:
+                f.write("module batch\n\ngo 1.25\n")
+            for g in gs:
+                for o in opts:
+                    it = bt.items[(g["id"], o)]
+                    r = it["resp"]
+                    n += 1
+                    why = None
+                    if not it["generated"]:
+                        why = "no output: " + str(r.get("panic") or r.get("compile_err") or r.get("parse_err"))[:300]
+                    else:
+                        rc, out, err = C.run(["go", "build", "./pkgs/" + it["pkg"]], cwd=bt.dir, env=C.GOENV, timeout=1200)
+                        if rc == 124:
+                            raise RuntimeError("type check of %s/%s did not finish within the harness limit" % (g["id"], o))
+                        if rc != 0:
+                            why = "the generated file does not type-check: " + (out + err)[-300:]
+                        else:
+                            rcf, outf, _ = C.run(["gofmt", "-l", os.path.join("pkgs", it["pkg"])], cwd=bt.dir, env=C.GOENV, timeout=600)
+                            if outf.strip():
+                                why = "the generated file is not in canonical gofmt form"
+                    if why:
+                        problems.append(("[%s] %s" % (g["id"], why), {"grammar": g["text"][:4000], "stream": g["id"], "options": B.OPTSETS[o], "why": why}))
+        finally:
+            bt.cleanup()
+    return n
 
 
 def json_key(o):
